@@ -199,4 +199,19 @@ fire("c07-serialize-unknown-branch", ["C07", "C15"], MSG, "        size = len2by
 silent("c07-serialize-inline", ["C07"], [(MSG, "        size = len2bytes(self._payload)\n        message = RTCM_HDR + size + self._payload\n        crc = crc2bytes(message)\n        return message + crc", "        body = RTCM_HDR + len2bytes(self._payload) + self._payload\n        return body + crc2bytes(body)")], "equivalent")
 silent("c07-repr-conv-r", ["C07"], [(MSG, 'return f"RTCMMessage(payload={self._payload})"', 'return f"RTCMMessage(payload={self._payload!r})"')], "equivalent for bytes")
 
+# ----------------------------------------------------------------------------- C14
+fire("c14-private-exempt", ["C14"], MSG, "        if self._immutable:\n            raise RTCMMessageError(", "        if self._immutable and not name.startswith(\"_\"):\n            raise RTCMMessageError(", "private names stay writable (survives the test-suite)")
+fire("c14-flag-store-removed", ["C14"], MSG, "        self._immutable = True  # once initialised, object is immutable\n", "")
+fire("c14-flag-before-attrs", ["C14"], MSG, "        self._do_attributes()\n\n        self._immutable = True  # once initialised, object is immutable\n", "        super().__setattr__(\"_immutable\", True)\n        self._do_attributes()\n")
+fire("c14-raise-after-delegation", ["C14"], MSG, "        if self._immutable:\n            raise RTCMMessageError(\n                f\"Object is immutable. Updates to {name} not permitted after initialisation.\"\n            )\n\n        super().__setattr__(name, value)", "        super().__setattr__(name, value)\n        if self._immutable:\n            raise RTCMMessageError(\n                f\"Object is immutable. Updates to {name} not permitted after initialisation.\"\n            )")
+fire("c14-wrong-exception", ["C14"], MSG, "        if self._immutable:\n            raise RTCMMessageError(", "        if self._immutable:\n            raise RTCMTypeError(")
+fire("c14-new-names-allowed", ["C14"], MSG, "        if self._immutable:\n            raise RTCMMessageError(", "        if self._immutable and name in self.__dict__:\n            raise RTCMMessageError(", "fresh names can be added after construction")
+fire("c14-bypass-in-getter", ["C14"], MSG, "        mid = self._payload[0] << 4 | self._payload[1] >> 4\n", "        mid = self._payload[0] << 4 | self._payload[1] >> 4\n        object.__setattr__(self, \"_lastid\", mid)\n")
+fire("c14-dict-write", ["C14"], MSG, "        size = len2bytes(self._payload)\n", "        size = len2bytes(self._payload)\n        self.__dict__[\"_serialized\"] = True\n")
+fire("c14-silent-ignore", ["C14"], MSG, "            raise RTCMMessageError(\n                f\"Object is immutable. Updates to {name} not permitted after initialisation.\"\n            )\n", "            return\n", "assignment silently ignored instead of raising")
+fire("c14-payload-setter", ["C14"], MSG, "    @property\n    def ismsm(self) -> bool:", "    @payload.setter\n    def payload(self, value):\n        super().__setattr__(\"_payload\", value)\n\n    @property\n    def ismsm(self) -> bool:")
+fire("c14-flag-conditional", ["C14"], MSG, "        self._immutable = True  # once initialised, object is immutable\n", "        if not self._unknown:\n            self._immutable = True  # once initialised, object is immutable\n", "unknown-type stubs stay mutable")
+silent("c14-message-text", ["C14"], [(MSG, 'f"Object is immutable. Updates to {name} not permitted after initialisation."', 'f"Immutable object: cannot set {name}."')], "message text is free")
+silent("c14-flag-renamed", ["C14"], [(MSG, "_immutable", "_frozen")], "flag renamed consistently")
+
 VARIANTS = V
